@@ -13,3 +13,4 @@ import WowVerif.Props.C01
 import WowVerif.Props.C02
 import WowVerif.Props.C06
 import WowVerif.Props.C07
+import WowVerif.Props.C10
